@@ -151,15 +151,20 @@ impl<'a> Ctx<'a> {
                     (None, Some((bs, _))) => Some(bs),
                     (None, None) => None,
                 };
-                for a in ack_ids {
-                    acks.entry((s.sub.clone(), canon_ack(a))).or_default().push((end_seq, *seq, done));
-                }
+                // A malformed control message that ended the stream with INVALID_ARGUMENT was rejected:
+                // neither its acknowledgements nor its modifications may have been applied.
                 let frame_rejected = *hostile && matches!(&s.end, Some((_, _, StreamEnd::Status(INVALID_ARGUMENT, _))));
                 if frame_rejected {
+                    for a in ack_ids.iter() {
+                        rejected.entry((s.sub.clone(), canon_ack(a))).or_default().push(("Acknowledge", *seq));
+                    }
                     for a in modacks.iter() {
                         rejected.entry((s.sub.clone(), canon_ack(a))).or_default().push(("ModifyAckDeadline", *seq));
                     }
                     continue;
+                }
+                for a in ack_ids {
+                    acks.entry((s.sub.clone(), canon_ack(a))).or_default().push((end_seq, *seq, done));
                 }
                 for (i, a) in modacks.iter().enumerate() {
                     let n = secs.get(i).cloned().unwrap_or(0);
